@@ -1,12 +1,867 @@
-//! C06 — not built yet.
+//! C06 — a crash at any point loses at most the unsynced tail, and never corrupts.
+//!
+//! Fault enumeration over crash images *constructed* from a recorded C05 history:
+//! every byte length of the log from its length at the last open to its end, checkpoint.meta / checkpoint.meta.tmp
+//! variants, a freshly rotated empty file, single-bit flips, and the continuation
+//! crash → reopen → more writes → close → reopen. `GrafeoDB::open` of a mutilated directory always runs in a child
+//! worker process (16 GiB address-space limit, 20 s deadline, one retry at 60 s).
 
-use crate::driver::Run;
+use std::path::{Path, PathBuf};
+use std::sync::atomic::{AtomicU64, Ordering};
+use std::time::Duration;
 
-pub fn run(r: &mut Run) {
-    r.inconclusive("C06: check not built yet");
+use proptest::prelude::*;
+use serde::{Deserialize, Serialize};
+
+use crate::driver::{CaseResult, Failure, Run, fail, guard, hash_dbg, ok, scratch_dir};
+use crate::props::c05::{
+    Dump, Effects, End, History, Mode, Model, Op, SessionSpec, apply_op, diff_dumps, dump_db, op_strategy, open_db,
+    RecSpec, parse_log, record_text, session_strategy, to_record, value_strategy,
+};
+use crate::worker::{Reply, WorkerPool, unesc};
+
+const LOG0: &str = "wal_00000000.log";
+const META: &str = "checkpoint.meta";
+const TMP: &str = "checkpoint.meta.tmp";
+
+#[derive(Debug, Clone, PartialEq, Serialize, Deserialize)]
+pub struct CrashCase {
+    /// every session but the last is closed properly; the last one "crashes" after its last op
+    pub history: History,
+    /// writes issued after recovery (continuation)
+    pub cont: Vec<Op>,
 }
 
-/// Handles one request line inside the child worker process; returns one reply line.
-pub fn worker(_request: &str) -> String {
-    "ERR not built".to_string()
+// ------------------------------------------------------------------------------------------------
+// Worker side
+// ------------------------------------------------------------------------------------------------
+
+#[derive(Debug, Serialize, Deserialize)]
+struct Req {
+    dir: String,
+    mode: Mode,
+    cont: Option<Vec<Op>>,
+    /// WalManager-level request: only run `WalRecovery::recover()` on `dir` and return the data records
+    #[serde(default)]
+    recover_only: bool,
+}
+
+#[derive(Debug, Default, Serialize, Deserialize)]
+struct Rep {
+    /// (signature, what) of a failure inside the worker
+    err: Option<(String, String)>,
+    /// dump right after recovery
+    dump1: Option<Dump>,
+    /// model(dump1) + continuation ops
+    expect2: Option<Dump>,
+    /// continuation ops applied to an empty model
+    only_cont: Option<Dump>,
+    /// dump after continuation, close, reopen
+    dump2: Option<Dump>,
+    /// recover_only: canonical texts of the recovered data records
+    #[serde(default)]
+    records: Option<Vec<String>>,
+}
+
+fn close_explicit(db: grafeo_engine::GrafeoDB) -> Result<(), Failure> {
+    if let Err(e) = guard("close", || db.close())? {
+        return fail("c06/close-error", format!("close after recovery failed: {e}"));
+    }
+    guard("drop", move || drop(db))
+}
+
+fn worker_inner(req: &Req, rep: &mut Rep) -> Result<(), Failure> {
+    let path = PathBuf::from(&req.dir);
+    if req.recover_only {
+        let r = guard("recover", || grafeo_adapters::storage::wal::WalRecovery::new(&path).recover())?;
+        return match r {
+            Ok(recs) => {
+                rep.records = Some(recs.iter().filter_map(record_text).collect());
+                Ok(())
+            }
+            Err(e) => fail("c06/wal/recover-error", format!("WalRecovery::recover failed: {e}")),
+        };
+    }
+    let db = open_db(&path, req.mode).map_err(|f| remap(f, "c06/open-error"))?;
+    let d1 = guard("dump", || dump_db(&db))?;
+    rep.dump1 = Some(d1.clone());
+    let Some(cont) = &req.cont else {
+        // leave without touching the log further than Drop does
+        return guard("drop", move || drop(db));
+    };
+    let mut m = Model::from_dump(&d1);
+    let mut only = Model::default();
+    let mut fx = Effects::default();
+    for op in cont {
+        let mut models: [&mut Model; 1] = [&mut m];
+        let cops = apply_op(&db, &mut models, op, &mut fx)?;
+        for c in &cops {
+            only.apply(c);
+        }
+    }
+    rep.expect2 = Some(m.dump());
+    rep.only_cont = Some(only.dump());
+    close_explicit(db)?;
+    let db = open_db(&path, req.mode).map_err(|f| remap(f, "c06/reopen-error"))?;
+    let d2 = guard("dump", || dump_db(&db))?;
+    rep.dump2 = Some(d2);
+    guard("drop", move || drop(db))
+}
+
+fn remap(f: Failure, sig: &str) -> Failure {
+    if f.signature == "c05/open-error" { Failure { signature: sig.to_string(), what: f.what } } else { f }
+}
+
+/// Handles one request line inside the child worker process; returns one reply line (JSON).
+pub fn worker(request: &str) -> String {
+    let req: Req = match serde_json::from_str(request) {
+        Ok(r) => r,
+        Err(e) => return format!("ERR bad request: {e}"),
+    };
+    let mut rep = Rep::default();
+    if let Err(f) = worker_inner(&req, &mut rep) {
+        rep.err = Some((f.signature, f.what));
+    }
+    serde_json::to_string(&rep).unwrap_or_else(|e| format!("ERR cannot serialise reply: {e}"))
+}
+
+// ------------------------------------------------------------------------------------------------
+// Recording
+// ------------------------------------------------------------------------------------------------
+
+/// One point of the history: the abstract state after it and what the log looked like.
+#[derive(Debug, Clone)]
+struct Step {
+    state: Dump,
+    /// records (of any kind) logically appended to the log up to and including this step
+    cum_records: u64,
+    /// a commit marker closes this step (open of an existing db, wal_checkpoint, close)
+    commit: bool,
+    /// a durable point (explicit sync, checkpoint, close, or a mode that fsyncs every record)
+    durable: bool,
+    /// on-disk length of the log file after this step
+    disk_len: usize,
+    /// only for steps of the crash session: the whole wal directory
+    files: Option<Vec<(String, Vec<u8>)>>,
+    is_checkpoint: bool,
+}
+
+fn read_wal_dir(dir: &Path) -> Vec<(String, Vec<u8>)> {
+    let mut v = Vec::new();
+    if let Ok(rd) = std::fs::read_dir(dir) {
+        for e in rd.flatten() {
+            if e.path().is_file() {
+                v.push((e.file_name().to_string_lossy().to_string(), std::fs::read(e.path()).unwrap_or_default()));
+            }
+        }
+    }
+    v.sort();
+    v
+}
+
+fn log_of(files: &[(String, Vec<u8>)]) -> &[u8] {
+    files.iter().find(|(n, _)| n == LOG0).map_or(&[][..], |(_, b)| b.as_slice())
+}
+
+struct Recording {
+    steps: Vec<Step>,
+    /// index of the step "crash session opened"
+    crash_open: usize,
+    crash_mode: Mode,
+    multi_file: bool,
+}
+
+/// Time-dependent modes are replaced by deterministic ones (the on-disk length after each op must be a function
+/// of the case).
+fn deterministic(mode: Mode) -> Mode {
+    match mode {
+        Mode::Default => Mode::NoSync,
+        Mode::Batch { max_delay_ms, max_records } if max_delay_ms != 0 && max_delay_ms < 3_600_000 => {
+            Mode::Batch { max_delay_ms: 3_600_000, max_records: max_records.clamp(1, 8) }
+        }
+        m => m,
+    }
+}
+
+fn every_record_synced(mode: Mode) -> bool {
+    matches!(mode, Mode::Batch { max_delay_ms: 0, .. })
+}
+
+fn record(h: &History) -> Result<Recording, Failure> {
+    let dir = scratch_dir();
+    let path = dir.path().join("db");
+    let wal_dir = path.join("wal");
+    let mut m = Model::default();
+    let mut fx = Effects::default();
+    let mut steps = vec![Step {
+        state: m.dump(),
+        cum_records: 0,
+        commit: true,
+        durable: true,
+        disk_len: 0,
+        files: None,
+        is_checkpoint: false,
+    }];
+    let mut crash_open = 0;
+    let mut crash_mode = Mode::NoSync;
+    let mut multi_file = false;
+    let n = h.sessions.len();
+    for (si, s) in h.sessions.iter().enumerate() {
+        let last = si + 1 == n;
+        let mode = deterministic(s.mode);
+        // records in the log before this open (the open itself may append: recovery writes an abort marker)
+        let base = parse_log(log_of(&read_wal_dir(&wal_dir))).len() as u64;
+        let db = open_db(&path, mode)?;
+        let d = guard("dump", || dump_db(&db))?;
+        if d != m.dump() {
+            return fail("c06/recording-reopen-mismatch", format!("clean reopen #{si}: {}", diff_dumps(&d, &m.dump())));
+        }
+        let files = read_wal_dir(&wal_dir);
+        if last {
+            crash_open = steps.len();
+            crash_mode = mode;
+        }
+        steps.push(Step {
+            state: m.dump(),
+            cum_records: base + db.wal().map_or(0, |w| w.record_count()),
+            commit: true,
+            durable: true,
+            disk_len: log_of(&files).len(),
+            files: last.then_some(files),
+            is_checkpoint: false,
+        });
+        for op in &s.ops {
+            let mut models: [&mut Model; 1] = [&mut m];
+            apply_op(&db, &mut models, op, &mut fx)?;
+            let files = read_wal_dir(&wal_dir);
+            if files.iter().any(|(n, _)| n.ends_with(".log") && n != LOG0) {
+                multi_file = true;
+            }
+            let cum = base + db.wal().map_or(0, |w| w.record_count());
+            let is_cp = matches!(op, Op::Checkpoint);
+            steps.push(Step {
+                state: m.dump(),
+                cum_records: cum,
+                commit: is_cp,
+                durable: is_cp || matches!(op, Op::Sync) || every_record_synced(mode),
+                disk_len: log_of(&files).len(),
+                files: last.then_some(files),
+                is_checkpoint: is_cp,
+            });
+        }
+        if last {
+            // the process "dies" here: the images are built from the recorded directory contents; what Drop
+            // writes into the original directory afterwards is never looked at
+            guard("drop", move || drop(db))?;
+        } else {
+            if let Err(e) = guard("close", || db.close())? {
+                return fail("c06/close-error", format!("close failed: {e}"));
+            }
+            guard("drop", move || drop(db))?;
+            let files = read_wal_dir(&wal_dir);
+            steps.push(Step {
+                state: m.dump(),
+                cum_records: parse_log(log_of(&files)).len() as u64,
+                commit: true,
+                durable: true,
+                disk_len: log_of(&files).len(),
+                files: None,
+                is_checkpoint: false,
+            });
+        }
+    }
+    Ok(Recording { steps, crash_open, crash_mode, multi_file })
+}
+
+// ------------------------------------------------------------------------------------------------
+// Images and their evaluation
+// ------------------------------------------------------------------------------------------------
+
+#[derive(Debug, Clone)]
+struct Image {
+    kind: &'static str,
+    log: Vec<u8>,
+    meta: Option<Vec<u8>>,
+    tmp: Option<Vec<u8>>,
+    rotated_empty: bool,
+    /// lower bound from the statement: last durable step whose bytes are inside the image
+    durable: usize,
+    /// true for media corruption (bit flip): no durability lower bound beyond the last intact commit marker
+    corrupt: bool,
+    cont: bool,
+}
+
+pub struct Counters {
+    pub images: AtomicU64,
+    pub torn: AtomicU64,
+    pub flips: AtomicU64,
+    pub conts: AtomicU64,
+    pub mixes: AtomicU64,
+    pub retries: AtomicU64,
+}
+
+fn call_worker(pool: &WorkerPool, req: &Req, ctr: &Counters) -> Result<Rep, Failure> {
+    let line = serde_json::to_string(req).map_err(|e| Failure { signature: "c06/harness".into(), what: e.to_string() })?;
+    let mut reply = pool.call(&line, Duration::from_secs(20));
+    if reply == Reply::Timeout {
+        ctr.retries.fetch_add(1, Ordering::Relaxed);
+        reply = pool.call(&line, Duration::from_secs(60));
+    }
+    match reply {
+        Reply::Timeout => fail("c06/open-hang", "open of the crash image did not return within 20 s nor, retried alone, within 60 s"),
+        Reply::Died(st) => fail(format!("c06/open-died:{st}"), format!("worker process died while opening the crash image: {st}")),
+        Reply::Line(l) => {
+            if let Some(p) = l.strip_prefix("PANIC ") {
+                let t = unesc(p);
+                let (sig, msg) = t.split_once('\t').unwrap_or((t.as_str(), ""));
+                return fail(sig.to_string(), format!("panic while opening / using the crash image: {msg}"));
+            }
+            if l.starts_with("ERR ") {
+                return fail("c06/harness", l);
+            }
+            serde_json::from_str::<Rep>(&l).map_err(|e| Failure { signature: "c06/harness".into(), what: format!("bad reply: {e}") })
+        }
+    }
+}
+
+fn materialize(root: &Path, n: usize, img: &Image) -> PathBuf {
+    let d = root.join(format!("img{n}"));
+    let w = d.join("wal");
+    let _ = std::fs::create_dir_all(&w);
+    let _ = std::fs::write(w.join(LOG0), &img.log);
+    if let Some(m) = &img.meta {
+        let _ = std::fs::write(w.join(META), m);
+    }
+    if let Some(t) = &img.tmp {
+        let _ = std::fs::write(w.join(TMP), t);
+    }
+    if img.rotated_empty {
+        let _ = std::fs::write(w.join("wal_00000001.log"), b"");
+    }
+    d
+}
+
+/// Judges one image. `Ok(None)` = fine; `Ok(Some(f))` = a failure whose signature is a *specific* defect
+/// signature (possibly a known finding: the caller keeps going); `Err(f)` = generic failure.
+fn judge(rec: &Recording, img: &Image, rep: &Rep, cont_len: usize) -> Result<Option<Failure>, Failure> {
+    if let Some((sig, what)) = &rep.err {
+        return Err(Failure { signature: sig.clone(), what: format!("[{}] {what}", img.kind) });
+    }
+    let Some(got) = &rep.dump1 else {
+        return fail("c06/harness", "no dump in reply");
+    };
+    let steps = &rec.steps;
+    let parsed = parse_log(&img.log);
+    let valid = parsed.len() as u64;
+    let valid_end = parsed.last().map_or(0, |p| p.1);
+    let torn = valid_end < img.log.len();
+    // last step all of whose records are intact in the image
+    let upper = (0..steps.len()).rev().find(|g| steps[*g].cum_records <= valid).unwrap_or(0);
+    // last commit marker intact in the image
+    let commit = (0..=upper).rev().find(|g| steps[*g].commit).unwrap_or(0);
+    let lower = if img.corrupt { commit } else { img.durable.min(upper) };
+    let mut specific: Option<Failure> = None;
+    let in_allowed = (lower..=upper).any(|g| steps[g].state == *got);
+    if !in_allowed {
+        let pos = (0..steps.len()).find(|g| steps[*g].state == *got);
+        let ctx = format!(
+            "[{}] log {} bytes ({} intact records, torn tail: {torn}), allowed states = steps {lower}..={upper} of {}",
+            img.kind,
+            img.log.len(),
+            valid,
+            steps.len() - 1
+        );
+        match pos {
+            Some(_) if !img.corrupt && commit < lower && steps[commit].state == *got => {
+                let g = commit;
+                specific = Some(Failure {
+                    signature: "c06/synced-writes-lost-no-commit-marker".into(),
+                    what: format!(
+                        "{ctx}; recovered the state of step {g} (the last commit marker: open / wal_checkpoint): operations \
+                         acknowledged before the later successful sync (step {lower}) are lost because the direct API writes no \
+                         commit marker before close()/wal_checkpoint()"
+                    ),
+                });
+            }
+            Some(g) if g < lower => {
+                return fail("c06/durable-writes-lost", format!("{ctx}; recovered the state of step {g}"));
+            }
+            Some(g) => {
+                return fail(
+                    "c06/torn-or-later-record-applied",
+                    format!("{ctx}; recovered the state of step {g}, whose records are not all intact in the image"),
+                );
+            }
+            None => {
+                let near = &steps[upper].state;
+                return fail("c06/not-a-prefix-state", format!("{ctx}; recovered state equals no prefix state; vs step {upper}: {}", diff_dumps(got, near)));
+            }
+        }
+    }
+    if img.cont {
+        let (Some(d2), Some(e2), Some(oc)) = (&rep.dump2, &rep.expect2, &rep.only_cont) else {
+            return fail("c06/harness", "continuation reply incomplete");
+        };
+        if d2 != e2 {
+            let ctx = format!("[{}+continuation of {cont_len} ops] log {} bytes, torn tail: {torn}", img.kind, img.log.len());
+            if img.rotated_empty && d2 == oc && e2 != oc {
+                let f = Failure {
+                    signature: "c06/rotation-checkpoint-skips-older-files".into(),
+                    what: format!(
+                        "{ctx}; after recovering from a crash right after a log rotation, writing, closing and reopening, only \
+                         the post-recovery writes are present: the close checkpoints at sequence 1 and recovery then skips \
+                         wal_00000000.log, the only copy of everything older"
+                    ),
+                };
+                return Ok(Some(specific.unwrap_or(f)));
+            }
+            if torn && d2 == got && e2 != got {
+                return Ok(Some(Failure {
+                    signature: "c06/writes-after-torn-tail-lost".into(),
+                    what: format!(
+                        "{ctx}; everything written after the recovery is gone at the next open: the reopened log appends after \
+                         the torn/corrupt bytes, and replay stops in front of them: {}",
+                        diff_dumps(d2, e2)
+                    ),
+                }));
+            }
+            return fail("c06/continuation-mismatch", format!("{ctx}: {}", diff_dumps(d2, e2)));
+        }
+    }
+    Ok(specific)
+}
+
+fn build_images(rec: &Recording, thorough: bool, want_cont: bool, rot_cont: bool) -> Vec<Image> {
+    let steps = &rec.steps;
+    let last = steps.len() - 1;
+    let fin = steps[last].files.as_ref().unwrap();
+    let full = log_of(fin).to_vec();
+    let meta_of = |g: usize| -> Option<Vec<u8>> {
+        steps[g].files.as_ref().and_then(|f| f.iter().find(|(n, _)| n == META).map(|(_, b)| b.clone()))
+    };
+    let meta_fin = meta_of(last);
+    let open_len = steps[rec.crash_open].disk_len;
+    let durable_for = |len: usize| -> usize {
+        (0..steps.len()).rev().find(|g| steps[*g].durable && steps[*g].disk_len <= len).unwrap_or(0)
+    };
+    let meta_for_len = |len: usize| -> Option<Vec<u8>> {
+        // the metadata file as it was when the log had this length
+        let g = (rec.crash_open..steps.len()).rev().find(|g| steps[*g].disk_len <= len).unwrap_or(rec.crash_open);
+        meta_of(g)
+    };
+    let mut v = Vec::new();
+    // (a) every byte length from the length at open to the end
+    let tail = full.len() - open_len;
+    let max_exh = if thorough { 4096 } else { 1536 };
+    let stride = if tail <= max_exh { 1 } else { tail.div_ceil(max_exh) };
+    let n_trunc = tail / stride + 1;
+    let cont_every = if thorough { 4 } else { (n_trunc / 48).max(1) };
+    let mut i = 0usize;
+    let mut len = open_len;
+    loop {
+        v.push(Image {
+            kind: "truncate",
+            log: full[..len].to_vec(),
+            meta: meta_for_len(len),
+            tmp: None,
+            rotated_empty: false,
+            durable: durable_for(len),
+            corrupt: false,
+            cont: want_cont && i % cont_every == 0,
+        });
+        if len == full.len() {
+            break;
+        }
+        len = (len + stride).min(full.len());
+        i += 1;
+    }
+    // record boundaries are always included when striding
+    if stride > 1 {
+        for (_, end, _) in parse_log(&full) {
+            if end > open_len {
+                for l in [end - 1, end] {
+                    v.push(Image {
+                        kind: "truncate",
+                        log: full[..l].to_vec(),
+                        meta: meta_for_len(l),
+                        tmp: None,
+                        rotated_empty: false,
+                        durable: durable_for(l),
+                        corrupt: false,
+                        cont: false,
+                    });
+                }
+            }
+        }
+    }
+    // (b) checkpoint steps: log after step i with the metadata of before step i, temp file absent/empty/partial/full
+    for g in rec.crash_open + 1..steps.len() {
+        if !steps[g].is_checkpoint {
+            continue;
+        }
+        let log = full[..steps[g].disk_len.min(full.len())].to_vec();
+        let before = meta_of(g - 1);
+        let after = meta_of(g).unwrap_or_default();
+        let tmps: Vec<Option<Vec<u8>>> =
+            vec![None, Some(Vec::new()), Some(after[..after.len() / 2].to_vec()), Some(after.clone())];
+        for (k, t) in tmps.into_iter().enumerate() {
+            v.push(Image {
+                kind: "checkpoint-mix",
+                log: log.clone(),
+                meta: before.clone(),
+                tmp: t,
+                rotated_empty: false,
+                durable: durable_for(log.len()),
+                corrupt: false,
+                cont: want_cont && k == 2,
+            });
+        }
+    }
+    // final image with stale temp file / without metadata
+    v.push(Image {
+        kind: "checkpoint-mix",
+        log: full.clone(),
+        meta: meta_fin.clone(),
+        tmp: Some(vec![0xff; 7]),
+        rotated_empty: false,
+        durable: durable_for(full.len()),
+        corrupt: false,
+        cont: false,
+    });
+    // (c) freshly rotated empty file (crash between creating the new file and writing to it)
+    for l in [full.len(), open_len + tail / 2] {
+        v.push(Image {
+            kind: "rotated-empty",
+            log: full[..l].to_vec(),
+            meta: meta_for_len(l),
+            tmp: None,
+            rotated_empty: true,
+            durable: durable_for(l),
+            corrupt: false,
+            cont: want_cont && rot_cont && l == full.len(),
+        });
+    }
+    // (d) single-bit flips over the whole log (all sessions)
+    let bits = full.len() * 8;
+    let budget = if thorough { 4096 } else { 160 };
+    let fstride = if bits <= budget { 1 } else { bits.div_ceil(budget) };
+    let mut positions: Vec<usize> = (0..bits).step_by(fstride.max(1)).map(|b| if fstride > 1 { b + (b / fstride) % 8.min(fstride) } else { b }).collect();
+    // framing fields of every record: one bit in the length prefix and one in the checksum
+    for (s, e, _) in parse_log(&full) {
+        positions.push(s * 8 + (s % 8));
+        positions.push((e - 4) * 8 + (e % 8));
+    }
+    positions.retain(|b| *b < bits);
+    positions.sort_unstable();
+    positions.dedup();
+    let nflips = positions.len();
+    for (k, b) in positions.into_iter().enumerate() {
+        let mut log = full.clone();
+        log[b / 8] ^= 1 << (b % 8);
+        v.push(Image {
+            kind: "bit-flip",
+            log,
+            meta: meta_fin.clone(),
+            tmp: None,
+            rotated_empty: false,
+            durable: 0,
+            corrupt: true,
+            cont: want_cont && k % (nflips / 6).max(1) == 0,
+        });
+    }
+    v
+}
+
+pub fn check_crash_case(c: &CrashCase, pool: &WorkerPool, ctr: &Counters, thorough: bool) -> CaseResult {
+    let rec = record(&c.history)?;
+    if rec.multi_file {
+        return ok(false, "skipped/multi-file", hash_dbg(c));
+    }
+    // the continuation behind a freshly rotated file always runs into the known rotation+checkpoint defect:
+    // it is exercised for a quarter of the cases only, so that the others stay in the strict region
+    let rot_cont = hash_dbg(c) % 4 == 0;
+    let images = build_images(&rec, thorough, !c.cont.is_empty(), rot_cont);
+    let root = scratch_dir();
+    let mut specific: Option<Failure> = None;
+    let mut any_torn = false;
+    let mut any_mix = false;
+    for (n, img) in images.iter().enumerate() {
+        let d = materialize(root.path(), n, img);
+        let req = Req { dir: d.to_string_lossy().to_string(), mode: rec.crash_mode, cont: img.cont.then(|| c.cont.clone()), recover_only: false };
+        let rep = call_worker(pool, &req, ctr);
+        let _ = std::fs::remove_dir_all(&d);
+        let rep = rep.map_err(|f| Failure { signature: f.signature, what: format!("[{} image, log {} bytes] {}", img.kind, img.log.len(), f.what) })?;
+        ctr.images.fetch_add(1, Ordering::Relaxed);
+        let parsed_end = parse_log(&img.log).last().map_or(0, |p| p.1);
+        if img.kind == "truncate" && parsed_end < img.log.len() {
+            any_torn = true;
+            ctr.torn.fetch_add(1, Ordering::Relaxed);
+        }
+        if img.kind == "bit-flip" {
+            ctr.flips.fetch_add(1, Ordering::Relaxed);
+        }
+        if img.kind == "checkpoint-mix" || img.kind == "rotated-empty" {
+            any_mix = true;
+            ctr.mixes.fetch_add(1, Ordering::Relaxed);
+        }
+        if img.cont {
+            ctr.conts.fetch_add(1, Ordering::Relaxed);
+        }
+        match judge(&rec, img, &rep, c.cont.len())? {
+            None => {}
+            Some(f) => {
+                // specific defect signatures: keep the first, keep enumerating so that a generic failure elsewhere
+                // in the same history is still reported
+                if specific.is_none() {
+                    specific = Some(f);
+                }
+            }
+        }
+    }
+    if let Some(f) = specific {
+        return Err(f);
+    }
+    let class = match rec.crash_mode {
+        Mode::Sync => "crash-in/sync",
+        Mode::NoSync | Mode::Default => "crash-in/nosync",
+        Mode::Adaptive { .. } => "crash-in/adaptive",
+        Mode::Batch { max_delay_ms: 0, .. } => "crash-in/batch-every-record",
+        Mode::Batch { .. } => "crash-in/batch-n-records",
+    };
+    ok(any_torn || any_mix, class, hash_dbg(c))
+}
+
+fn crash_case_strategy(max_ops: usize, max_cont: usize) -> impl Strategy<Value = CrashCase> {
+    (
+        proptest::collection::vec(session_strategy(max_ops, 0.0, true), 0..=2),
+        session_strategy(max_ops, 0.0, true),
+        proptest::collection::vec(op_strategy(false), 0..=max_cont),
+    )
+        .prop_map(|(mut before, crash, cont)| {
+            before.push(SessionSpec { end: End::Drop, ..crash });
+            CrashCase { history: History { sessions: before }, cont }
+        })
+}
+
+// ------------------------------------------------------------------------------------------------
+// Sub-check `wal_multi_file`: damage in a log that spans several files (WalManager level)
+// ------------------------------------------------------------------------------------------------
+
+#[derive(Debug, Clone, PartialEq, Serialize, Deserialize)]
+pub enum MStep {
+    Log(RecSpec),
+    Commit,
+}
+
+#[derive(Debug, Clone, PartialEq, Serialize, Deserialize)]
+pub enum Damage {
+    /// flip one bit: file selector, bit selector
+    Flip { file: u16, bit: u16 },
+    /// cut the last file to a length
+    CutLast { len: u16 },
+    /// flip one bit of the last non-empty file (strict region: nothing follows the damage in replay order
+    /// except later, empty files)
+    FlipLast { bit: u16 },
+}
+
+#[derive(Debug, Clone, PartialEq, Serialize, Deserialize)]
+pub struct MultiCase {
+    pub max_log_size: u64,
+    pub steps: Vec<MStep>,
+    pub damage: Damage,
+}
+
+fn multi_case_strategy(max_steps: usize) -> impl Strategy<Value = MultiCase> {
+    let rec = prop_oneof![
+        3 => (0u8..8, proptest::collection::vec(0u8..3, 0..=2)).prop_map(|(id, labels)| RecSpec::CreateNode { id, labels }),
+        3 => (0u8..8, 0u8..4, value_strategy()).prop_map(|(id, k, v)| RecSpec::SetNodeProp { id, k, v }),
+        1 => (0u8..8).prop_map(|id| RecSpec::DeleteNode { id }),
+        1 => (0u8..8, 0u8..8, 0u8..8, 0u8..2).prop_map(|(id, src, dst, ty)| RecSpec::CreateEdge { id, src, dst, ty }),
+    ];
+    let step = prop_oneof![5 => rec.prop_map(MStep::Log), 1 => Just(MStep::Commit)];
+    let damage = prop_oneof![
+        2 => (any::<u16>(), any::<u16>()).prop_map(|(file, bit)| Damage::Flip { file, bit }),
+        2 => any::<u16>().prop_map(|bit| Damage::FlipLast { bit }),
+        1 => any::<u16>().prop_map(|len| Damage::CutLast { len }),
+    ];
+    (prop_oneof![1 => Just(64u64), 2 => 64u64..400, 1 => Just(1u64 << 20)], proptest::collection::vec(step, 2..=max_steps), damage)
+        .prop_map(|(max_log_size, steps, damage)| MultiCase { max_log_size, steps, damage })
+}
+
+/// Data-record texts and commit markers of a log image, in order (`None` = commit marker).
+fn stream_of(bytes: &[u8]) -> Vec<Option<String>> {
+    parse_log(bytes)
+        .into_iter()
+        .filter_map(|(_, _, r)| match &r {
+            grafeo_adapters::storage::wal::WalRecord::TxCommit { .. } => Some(None),
+            other => record_text(other).map(Some),
+        })
+        .collect()
+}
+
+/// The data records in front of the last commit marker of a stream.
+fn committed_of(stream: &[Option<String>]) -> Vec<String> {
+    let last = stream.iter().rposition(Option::is_none).unwrap_or(0);
+    stream[..last].iter().flatten().cloned().collect()
+}
+
+pub fn check_multi_case(c: &MultiCase, pool: &WorkerPool, ctr: &Counters) -> CaseResult {
+    use grafeo_adapters::storage::wal::{DurabilityMode as WD, WalConfig, WalManager, WalRecord};
+    let dir = scratch_dir();
+    let wdir = dir.path().join("wal");
+    let cfg = WalConfig { durability: WD::NoSync, max_log_size: c.max_log_size, ..WalConfig::default() };
+    let wal = match guard("WalManager::with_config", || WalManager::with_config(&wdir, cfg))? {
+        Ok(w) => w,
+        Err(e) => return fail("c06/wal/open-error", format!("{e}")),
+    };
+    let tx = grafeo_common::types::TxId::new(1);
+    let mut steps = c.steps.clone();
+    steps.push(MStep::Commit);
+    for st in &steps {
+        let rec = match st {
+            MStep::Log(r) => to_record(r),
+            MStep::Commit => WalRecord::TxCommit { tx_id: tx },
+        };
+        if let Err(e) = guard("log", || wal.log(&rec))? {
+            return fail("c06/wal/log-error", format!("{e}"));
+        }
+    }
+    if let Err(e) = guard("sync", || wal.sync())? {
+        return fail("c06/wal/sync-error", format!("{e}"));
+    }
+    guard("drop", move || drop(wal))?;
+    // read the files (no checkpoint was taken: recovery replays every file)
+    let mut files: Vec<(String, Vec<u8>)> = read_wal_dir(&wdir).into_iter().filter(|(n, _)| n.ends_with(".log")).collect();
+    files.sort();
+    let nfiles = files.len();
+    let intact: Vec<Vec<Option<String>>> = files.iter().map(|(_, b)| stream_of(b)).collect();
+    let all: Vec<Option<String>> = intact.iter().flatten().cloned().collect();
+    let expected = committed_of(&all);
+    // apply the damage
+    let (f, what) = match c.damage {
+        Damage::Flip { file, bit } => {
+            // prefer a non-last, non-empty file
+            let cands: Vec<usize> = (0..nfiles).filter(|i| !files[*i].1.is_empty()).collect();
+            if cands.is_empty() {
+                return ok(false, "skipped/empty-log", hash_dbg(c));
+            }
+            let f = cands[crate::driver::pick(file, cands.len())];
+            let bits = files[f].1.len() * 8;
+            let b = crate::driver::pick(bit, bits);
+            files[f].1[b / 8] ^= 1 << (b % 8);
+            (f, format!("bit {b} of {} flipped", files[f].0))
+        }
+        Damage::FlipLast { bit } => {
+            let Some(f) = (0..nfiles).rev().find(|i| !files[*i].1.is_empty()) else {
+                return ok(false, "skipped/empty-log", hash_dbg(c));
+            };
+            let bits = files[f].1.len() * 8;
+            let b = crate::driver::pick(bit, bits);
+            files[f].1[b / 8] ^= 1 << (b % 8);
+            (f, format!("bit {b} of {} flipped", files[f].0))
+        }
+        Damage::CutLast { len } => {
+            let f = nfiles - 1;
+            let l = crate::driver::pick(len, files[f].1.len() + 1);
+            files[f].1.truncate(l);
+            (f, format!("{} cut to {l} bytes", files[f].0))
+        }
+    };
+    std::fs::write(wdir.join(&files[f].0), &files[f].1).map_err(|e| Failure { signature: "c06/harness".into(), what: e.to_string() })?;
+    let req = Req { dir: wdir.to_string_lossy().to_string(), mode: Mode::NoSync, cont: None, recover_only: true };
+    let rep = call_worker(pool, &req, ctr)?;
+    ctr.images.fetch_add(1, Ordering::Relaxed);
+    if let Some((sig, w)) = rep.err {
+        return fail(sig, format!("[{what}] {w}"));
+    }
+    let got = rep.records.unwrap_or_default();
+    // what must survive: everything committed in front of the damage
+    let damaged = stream_of(&files[f].1);
+    let before: Vec<Option<String>> = intact[..f].iter().flatten().cloned().chain(damaged.iter().cloned()).collect();
+    let must = committed_of(&before);
+    let is_prefix = got.len() <= expected.len() && got[..] == expected[..got.len()];
+    if is_prefix && got.len() >= must.len() {
+        let class = if nfiles == 1 {
+            "single-file"
+        } else if f + 1 == nfiles {
+            "multi-file/damage-in-last"
+        } else {
+            "multi-file/damage-in-earlier"
+        };
+        return ok(nfiles > 1 || !matches!(c.damage, Damage::CutLast { .. }), class, hash_dbg(c));
+    }
+    // Known defect: a corrupt record ends the reading of *that file only*; the following files are still
+    // replayed, and their commit markers commit the pending records read so far. Predicted answer:
+    let skipping: Vec<Option<String>> = before.iter().cloned().chain(intact[f + 1..].iter().flatten().cloned()).collect();
+    let predicted = committed_of(&skipping);
+    if f + 1 < nfiles && got == predicted && !is_prefix {
+        return fail(
+            "c06/wal/records-behind-a-corrupt-file-replayed",
+            format!(
+                "[{what}; {nfiles} log files] recovery returned {} records that are not a prefix of the {} logged ones: the rest of \
+                 the damaged file is dropped but the later files are replayed on top",
+                got.len(),
+                expected.len()
+            ),
+        );
+    }
+    if !is_prefix {
+        return fail("c06/wal/not-a-prefix", format!("[{what}; {nfiles} files] got {} records, logged {}: {:?} vs {:?}", got.len(), expected.len(), got.iter().take(6).collect::<Vec<_>>(), expected.iter().take(6).collect::<Vec<_>>()));
+    }
+    fail("c06/wal/committed-records-lost", format!("[{what}; {nfiles} files] got {} records, {} were committed in front of the damage", got.len(), must.len()))
+}
+
+pub fn run(r: &mut Run) {
+    r.level = "fault_enumeration";
+    r.rule = "per generated history (0-2 closed sessions, then a session that crashes after its last op; direct-API ops of C05 incl. \
+              wal_checkpoint and wal().sync(); deterministic durability modes) the enumerated crash images are: every byte \
+              length of the log from its length at the last open to its end (exhaustive up to 1.5 KiB quick / 4 KiB thorough, \
+              strided beyond, record boundaries always), checkpoint steps with old metadata and absent/empty/partial/full \
+              checkpoint.meta.tmp, a freshly rotated empty file, single-bit \
+              flips over the whole log (one bit in every record's length and checksum field + a stride of ~160 positions quick / 4096 thorough, i.e. exhaustive for logs up to 512 bytes in thorough), \
+              and the continuation (reopen, write, close, reopen) on a strided subset (behind the rotated-empty image only for a quarter of the cases: known finding). Non-trivial history = at least one cut \
+              strictly inside a record or a checkpoint/rotation mix was evaluated. Distinct by hash of the case."
+        .into();
+    r.assumptions.push("durable points are the explicit ones (open of a closed db, wal_checkpoint, wal().sync(), and every op under Batch{max_delay_ms:0}); fsyncs triggered by Batch{max_records} are not counted (weaker lower bound than the statement, never stronger)".into());
+    r.assumptions.push("a crash is modelled by file contents only: append-only log prefixes, atomically renamed checkpoint.meta; directory-entry reordering is not modelled".into());
+    r.assumptions.push("bit flips: lower bound is the last commit marker intact in front of the damage (media corruption is not covered by the sync guarantee)".into());
+    r.assumptions.push("statements are excluded (they are not logged at all: C05 finding)".into());
+    r.assumptions.push("the database level never rotates below 64 MiB; multi-file logs are covered by the 'freshly rotated empty file' image and by wal_multi_file (WalManager level: records + commit markers over files of 64..400 bytes, one bit flipped in any file or the last file cut; oracle: recovered records are a prefix of the logged ones and contain everything committed in front of the damage)".into());
+
+    let thorough = r.is_thorough();
+    let pool = WorkerPool::new("c06", 16 * 1024 * 1024 * 1024);
+    let ctr = Counters {
+        images: AtomicU64::new(0),
+        torn: AtomicU64::new(0),
+        flips: AtomicU64::new(0),
+        conts: AtomicU64::new(0),
+        mixes: AtomicU64::new(0),
+        retries: AtomicU64::new(0),
+    };
+    let (max_ops, max_cont) = if thorough { (24, 8) } else { (10, 4) };
+    r.subcheck("crash_images", r.cases(64, 800), move || crash_case_strategy(max_ops, max_cont), |c: &CrashCase| {
+        check_crash_case(c, &pool, &ctr, thorough)
+    });
+    let max_steps = if thorough { 60 } else { 24 };
+    r.subcheck("wal_multi_file", r.cases(1500, 60_000), move || multi_case_strategy(max_steps), |c: &MultiCase| {
+        check_multi_case(c, &pool, &ctr)
+    });
+    r.note(format!(
+        "crash images opened in worker processes: {} (cut strictly inside a record: {}, bit flips: {}, checkpoint/rotation mixes: {}, with continuation: {}, deadline retries: {})",
+        ctr.images.load(Ordering::Relaxed),
+        ctr.torn.load(Ordering::Relaxed),
+        ctr.flips.load(Ordering::Relaxed),
+        ctr.mixes.load(Ordering::Relaxed),
+        ctr.conts.load(Ordering::Relaxed),
+        ctr.retries.load(Ordering::Relaxed)
+    ));
+    println!(
+        "  images={} torn={} flips={} mixes={} continuations={} retries={}",
+        ctr.images.load(Ordering::Relaxed),
+        ctr.torn.load(Ordering::Relaxed),
+        ctr.flips.load(Ordering::Relaxed),
+        ctr.mixes.load(Ordering::Relaxed),
+        ctr.conts.load(Ordering::Relaxed),
+        ctr.retries.load(Ordering::Relaxed)
+    );
 }
